@@ -5,11 +5,39 @@ Model: Pdb/Model/ConcRead.lean, Part 3 (`Tr`): commit queue, commit overlay, the
 two steps `process` (pop, deferral decision, plan) and `publish` (`end_record` + overlay
 cleaning), the reader registry (`locked`, the log worker's write locks `wlocked`,
 `to_dereference`, `used_trees`) over a logical forest with claimed addresses, all interleavings
-of {commit, process, publish, lock, unlock} as action lists.  Two variants of `process`:
-`Variant.current` (the code as it is) and `Variant.patched` (fixes/fix-c11-defer-order.diff).
+of {commit, process, publish, lock, unlock} as action lists.  Ghost history and schedule
+predicates: Pdb/Model/C11Ghost.lean.  Executable driver (`c11`): Pdb/Model/C11Driver.lean.
 
-THE CURRENT CODE VIOLATES THE PROPERTY IN THREE WAYS (all replayed on the real crate by the
-harness, `pdbverif c11`):
+WHICH THEOREM SPEAKS ABOUT WHICH CODE
+  `Variant.current` = /repo as shipped (src/db.rs `process_commits` / `defer_commit` /
+      `write_plan`).  It is this variant that is TIED TO THE CRATE: the driver command `c11`
+      executes `tstep Variant.current` on the op lines that harness/src/c11.rs records from the
+      real `Db` (every commit / lock / unlock / process_commits / end_record step of its
+      deterministic scenarios, the F4 / F4' / F13 / F4c schedules included) and every observation
+      (ordinary reads, readable roots, value-entry count, the walk of every locked tree through
+      its guard, number of deferrals) must agree.
+      Theorems about `current`:
+        negative   C11_F4_counterexample, C11_order_false, C11_F4_insert_counterexample,
+                   C11_F13_counterexample, C11_current_livelock (F4c: no lock held, the queue
+                   rotates for ever)
+        positive   C11_order_partial (any variant), C11_order_current, C11_forest_current
+                   (commit-return order for ordinary keys AND for roots / nodes whenever no commit
+                   is postponed: hypothesis `noDeferral`, decidable on the action list),
+                   C11_locked_stable_current (a held lock protects the tree unless it was taken
+                   inside the F13 window `inF13Window`), C11_F13_window_only (the window cannot
+                   open while the lock is held), C11_forest_published (any variant)
+  `Variant.patched` = /repo + fixes/fix-c11-defer-order.diff (~280 lines, judged not small, NOT
+      applied to /repo).  The theorems say that the repair proposed there is sound in the model;
+      the regular check never executes this variant.  It was tied to code once, by hand: a crate
+      built WITH the diff, replayed by the same harness with `PDB_C11_VARIANT=patched` (driver:
+      `c11 init <fuel> patched`), agrees with `tstep Variant.patched` on every step of the
+      deterministic scenarios and shows none of F4 / F4' / F13 / F4c (fixes/f-c11/INTEGRATE.md):
+        C11_order_patched, C11_forest_patched, C11_locked_stable, C11_released_completes,
+        C11_released_completes_bounded
+  variant independent: C11_fuel_adequate (the depth bound `fuel` of the dereference walk).
+
+THE CURRENT CODE VIOLATES THE PROPERTY IN FOUR WAYS (all replayed on the real crate by the
+harness, `pdbverif c11`, and predicted step by step by the `current` model):
   F4   `C11_F4_counterexample`: T1 = {DereferenceTree A, Set k=1}, T2 = {Set k=2}, reader lock on
        A held when T1 reaches the head of the queue: the WHOLE of T1 is re-queued behind T2
        under a fresh id and its overlay entries are copied again: reads of k return 1 at once
@@ -22,9 +50,25 @@ harness, `pdbverif c11`):
        PLANS; the plan is published (`end_record`) after the lock is released.  A reader that
        gets the lock in between sees an intact tree whose root and nodes then vanish under its
        held lock.
-With the patch (try-lock all dereferenced trees before planning, hold until published, postpone
-ONLY the tree dereferences) the model satisfies `C11_order_patched`, `C11_locked_stable`,
-`C11_released_completes`; for the current code `C11_order_partial` is what remains true.
+  F4c  `C11_current_livelock` (found while proving eventual completion): c0 = {Deref 2},
+       c = {Insert 5, Deref 1} with used_trees {2}, c' = {Insert 6, Deref 2} with used_trees {2, 1},
+       committed while trees 1 and 2 were locked; after BOTH locks are released each commit is
+       re-queued behind another one that lists its tree in `used_trees`, for ever: the removals
+       never complete, the inserted trees are never published, `drop(Db)` does not return.
+
+THE FOREST HALF OF "COMMIT-RETURN ORDER" (roots / nodes).  The literal statement "the final
+root / node maps are those of applying all transactions sequentially in commit-return order"
+is FALSE for the patched variant and is not what the property wants: `C11_forest_literal_false`
+(DereferenceTree A is committed, then InsertTree B sharing A's nodes is committed under A's
+lock: applying them in that order frees the shared nodes before B references them; the
+property demands that B stays valid, and the patched run keeps it valid by applying the
+dereference later).  What holds, and what rules out F4', is `C11_forest_patched`: the final
+forest is the sequential application of the tree events in PUBLICATION order, and the
+publication order is the commit-return order with `DereferenceTree` events moved to the RIGHT
+only (`DelayD`): inserts are never reordered among themselves (`DelayD.ins_order`), no
+dereference is ever applied before a transaction committed before it, nothing is lost or
+duplicated (`DelayD.perm`).  When nothing is postponed the literal statement holds
+(`C11_forest_current`, any variant).
 
 Not covered by a theorem: "trees inserted meanwhile that reuse its nodes stay valid" in
 general (it needs the client contract "existing nodes are referenced only under the lock of a
@@ -33,6 +77,10 @@ intact on the F4' schedule (example below) and the harness checks it on the real
 -/
 import Pdb.Proofs.C11Order
 import Pdb.Proofs.C11Stable
+import Pdb.Proofs.C11Forest
+import Pdb.Proofs.C11Current
+import Pdb.Proofs.C11Complete
+import Pdb.Proofs.C11Fuel
 
 namespace Pdb
 open CRd CRd.Tr
@@ -170,6 +218,185 @@ example :
   simp only [lockedThroughout]
   decide
 
+/-! ## `Variant.current`: what does hold of the shipped code -/
+
+/-- (b), ordinary columns.  If no `process` step of the run postpones a commit (`noDeferral`:
+    whenever a transaction reaches the head of the queue, no tree it dereferences is read-locked
+    or recorded in `used_trees` of a later queued commit; decidable on the action list), the
+    shipped code publishes in commit-return order: the final table is the specification. -/
+theorem C11_order_current (kind : K → Kind) (fuel : Nat) (as : List (TAct K V TK)) :
+    noDeferral .current kind fuel (TSt.init : TSt K V TK) as = true →
+    let s := trun .current kind fuel (TSt.init : TSt K V TK) as
+    s.queue = [] → s.pend = none → s.tbl = spec kind s.hist :=
+  order_noDeferral .current kind fuel as
+
+/-- (b) + (2), tree state.  Under the same hypothesis the final roots, nodes and root keys are
+    those of applying the tree events of all accepted transactions sequentially in
+    commit-return order (`Ghost.hist`) to the empty forest.  Holds for either variant. -/
+theorem C11_forest_current (var : Variant) (kind : K → Kind) (fuel : Nat)
+    (as : List (TAct K V TK)) :
+    noDeferral var kind fuel (TSt.init : TSt K V TK) as = true →
+    let p := grun var kind fuel ((TSt.init : TSt K V TK), Ghost.init) as
+    p.1.queue = [] → p.1.pend = none → p.1.forest = seqForest fuel p.2.hist :=
+  forest_noDeferral var kind fuel as
+
+/-- Any variant, any schedule, any state of the pipeline: the published forest is the
+    sequential application of the tree events in PUBLICATION order. -/
+theorem C11_forest_published (var : Variant) (kind : K → Kind) (fuel : Nat)
+    (as : List (TAct K V TK)) :
+    (grun var kind fuel ((TSt.init : TSt K V TK), Ghost.init) as).1.forest =
+      seqForest fuel (grun var kind fuel ((TSt.init : TSt K V TK), Ghost.init) as).2.done :=
+  forest_done_init var kind fuel as
+
+/-- Readers on OTHER trees do not disturb the order: tree 3 is locked while
+    T1 = {DereferenceTree 1, Set 7 := 1} and T2 = {Set 7 := 2} go through.  The hypothesis of
+    `C11_order_current` / `C11_forest_current` holds, and the run is not trivial. -/
+private def otherReader : List (TAct Nat Nat Nat) :=
+  [insA, insC, .process, .publish, .process, .publish, .lock 3,
+   .commit [.set 7 1] [1] [], .commit [.set 7 2] [] [],
+   .process, .lock 3, .publish, .process, .unlock 3, .publish, .unlock 3]
+
+example :
+    noDeferral .current kd 4 (TSt.init : TSt Nat Nat Nat) otherReader = true ∧
+    (let s := trun .current kd 4 (TSt.init : TSt Nat Nat Nat) otherReader
+     s.queue = [] ∧ s.pend = none ∧ (s.tbl 7).map Prod.fst = some 2 ∧ s.root 1 = none ∧
+     s.node 100 = none ∧ s.root 3 = some [300] ∧ s.nDeferred = 0) ∧
+    -- and it fails on the F4 schedule, where the locked tree is the dereferenced one
+    noDeferral .current kd 4 (TSt.init : TSt Nat Nat Nat) (f4Head ++ f4Tail) = false := by
+  decide
+
+/-- Locked-tree stability for the shipped code, outside the F13 window.  `inF13Window s key`:
+    a commit that dereferences `key` is planned (walk finished, the tree's write lock released)
+    and not yet published.  If the reader's lock is held in every state from `s0` on and `s0`
+    is not inside that window (the lock was not acquired between the `process` and the `publish`
+    of such a commit), root and every present reachable node of the tree stay as they are,
+    whatever is committed, postponed, planned and published meanwhile. -/
+theorem C11_locked_stable_current (kind : K → Kind) (fuel : Nat) (pre as : List (TAct K V TK))
+    (key : TK) :
+    let s0 := trun .current kind fuel (TSt.init : TSt K V TK) pre
+    (s0.root key).isSome → inF13Window s0 key = false →
+    lockedThroughoutV .current kind fuel key s0 as →
+    (trun .current kind fuel s0 as).root key = s0.root key ∧
+    ∀ x ∈ reachN s0.node fuel ((s0.root key).getD []), (s0.node x).isSome →
+      (trun .current kind fuel s0 as).node x = s0.node x := by
+  intro s0 hr hw hl
+  exact locked_stable_current kind fuel pre as key hr hw hl
+
+/-- The window is precise: while the lock on `key` is held and the state is outside the window,
+    no action of anybody leads into it (`process` postpones every commit that dereferences a
+    locked tree).  So a held lock is invalidated ONLY if it was acquired inside the window: the
+    F13 schedule, where `inF13Window` is true when the `lock` action is executed. -/
+theorem C11_F13_window_only (kind : K → Kind) (fuel : Nat) (s : TSt K V TK) (key : TK)
+    (hw : inF13Window s key = false) (hl : 0 < s.locked key) (a : TAct K V TK) :
+    inF13Window (tstep .current kind fuel s a) key = false :=
+  window_only_at_lock kind fuel s key hw hl a
+
+/-- non-vacuity: on the shipped code the lock holds across the postponed dereference of its own
+    tree and a concurrent insert sharing its nodes; on the F13 schedule the lock is taken inside
+    the window (that hypothesis of `C11_locked_stable_current` is exactly what fails there). -/
+example :
+    inF13Window (trun .current kd 4 (TSt.init : TSt Nat Nat Nat) [insA, .process, .publish, .lock 1]) 1 = false ∧
+    lockedThroughoutV .current kd 4 1
+      (trun .current kd 4 (TSt.init : TSt Nat Nat Nat) [insA, .process, .publish, .lock 1])
+      [.commit [] [1] [], .commit [] [] [(2, [100, 200], [(200, [])])], .process, .process, .publish,
+       .process] ∧
+    inF13Window (trun .current kd 4 (TSt.init : TSt Nat Nat Nat)
+      [insA, .process, .publish, .commit [] [1] [], .process]) 1 = true := by
+  refine ⟨by decide, ?_, by decide⟩
+  simp only [lockedThroughoutV]
+  decide
+
+/-- F4c: eventual completion FAILS for the shipped code.  In `curS` (reached by `curPre`, see
+    Pdb/Proofs/C11Complete.lean) no reader lock is held, three commits are queued, and for EVERY
+    number of log-worker cycles the queue still holds all three. -/
+theorem C11_current_livelock (fuel : Nat) (n : Nat) :
+    Unlocked curS ∧ (trun .current exKind fuel curS (.publish :: workerRun n)).queue.length = 3 :=
+  current_livelock_forever fuel n
+
+/-! ## `Variant.patched`: the forest half and bounded completion -/
+
+/-- (2) Forest half of `C11_order_patched`.  Once everything is published, the roots / nodes are
+    the sequential application of the tree events in publication order (`done`), and `done` is
+    the commit-return order `hist` with `DereferenceTree` events moved to the right only. -/
+theorem C11_forest_patched (kind : K → Kind) (fuel : Nat) (as : List (TAct K V TK)) :
+    let p := grun .patched kind fuel ((TSt.init : TSt K V TK), Ghost.init) as
+    p.1.queue = [] → p.1.pend = none →
+      p.1.forest = seqForest fuel p.2.done ∧ DelayD p.2.hist p.2.done :=
+  forest_patched kind fuel as
+
+/-- What `DelayD` allows: inserts keep their order exactly, nothing is lost or duplicated. -/
+theorem C11_delay_meaning {a b : List (Ev TK)} (h : DelayD a b) :
+    b.filterMap insOf = a.filterMap insOf ∧ b.Perm a :=
+  ⟨h.ins_order, h.perm⟩
+
+/-- late lock: DereferenceTree A is committed, THEN InsertTree B sharing A's node 100 is
+    committed under A's lock, the lock is released, the pipeline runs. -/
+private def lateLock : List (TAct Nat Nat Nat) :=
+  [insA, .process, .publish, .commit [] [1] [], .lock 1,
+   .commit [] [] [(2, [100, 200], [(200, [])])], .unlock 1,
+   .process, .publish, .process, .publish, .process, .publish]
+
+/-- The LITERAL forest statement (final forest = all transactions applied sequentially in
+    commit-return order) is false of the patched variant, and it is the patched run that is
+    right: sequentially, A's nodes are freed before B refers to them (B dangling); the patched
+    run postpones the removal behind B, B is intact, A is gone. -/
+theorem C11_forest_literal_false :
+    let p := grun .patched kd 4 ((TSt.init : TSt Nat Nat Nat), Ghost.init) lateLock
+    p.1.queue = [] ∧ p.1.pend = none ∧
+    (seqForest 4 p.2.hist).root 2 = some [100, 200] ∧ (seqForest 4 p.2.hist).node 100 = none ∧
+    p.1.root 2 = some [100, 200] ∧ p.1.node 100 = some [101] ∧ treeIntact 4 p.1 2 = true ∧
+    p.1.root 1 = none ∧ p.1.nDeferred = 1 := by decide
+
+/-- (3) Eventual completion with a bound.  From ANY reachable state of the patched variant in
+    which no reader lock is held, one `publish` and `2 * queue.length` cycles of the log worker
+    (`workerRun n` = `n` times `[process, publish]`; `1 + 4 * queue.length` steps in all, no
+    other action in between) empty the pipeline, and every tree with a queued or planned
+    dereference has lost its root: every postponed removal is complete. -/
+theorem C11_released_completes_bounded (kind : K → Kind) (fuel : Nat) (pre : List (TAct K V TK)) :
+    let s := trun .patched kind fuel (TSt.init : TSt K V TK) pre
+    Unlocked s →
+    (let s' := trun .patched kind fuel s (.publish :: workerRun (2 * s.queue.length))
+     s'.queue = [] ∧ s'.pend = none ∧ ∀ c ∈ unpub s, ∀ k ∈ c.derefs, s'.root k = none) :=
+  reachable_completes kind fuel pre
+
+/-- non-vacuity: `exPre` (Pdb/Proofs/C11Complete.lean) leaves TWO postponed removals queued
+    (three deferrals happened), no lock held, both trees still present; the bound `2 * 2`
+    suffices. -/
+example :
+    exS.queue.length = 2 ∧ 2 ≤ exS.nDeferred ∧ exS.root 1 = some [100] ∧ exS.root 3 = some [300] ∧
+    Unlocked exS ∧ exS'.queue = [] ∧ exS'.pend = none ∧ exS'.root 1 = none ∧ exS'.root 3 = none := by
+  have h := ex_facts
+  refine ⟨h.1, h.2.2.1, h.2.2.2.2.2.1, h.2.2.2.2.2.2.1, exS_unlocked, ?_, ?_, ?_, ?_⟩
+  · exact List.length_eq_zero_iff.mp h.2.2.2.2.2.2.2.2.2.1
+  · exact Option.isNone_iff_eq_none.mp h.2.2.2.2.2.2.2.2.2.2.1
+  · exact h.2.2.2.2.2.2.2.2.2.2.2.1
+  · exact h.2.2.2.2.2.2.2.2.2.2.2.2.1
+
+/-! ## the depth bound -/
+
+/-- (5) Fuel adequacy.  `derefTree fuel` keeps what `reachN .. fuel` finds from the remaining
+    roots and frees everything else; all theorems above quantify over every `fuel`, including
+    too small ones (where the model walk frees too much).  If every path below the roots has at
+    most `d` edges (`Forest.HeightLe f d`, decidable) and `d ≤ fuel`, the walk is exact: a node
+    is kept iff it is reachable (`Reach`, unbounded) from a remaining root, and the result does
+    not depend on `fuel`. -/
+theorem C11_fuel_adequate (fuel fuel' d : Nat) (f : Forest TK) (key : TK)
+    (hd : f.HeightLe d) (hle : d ≤ fuel) (hle' : d ≤ fuel') :
+    derefTree fuel f key = derefTree fuel' f key ∧
+    (∀ a, Reach f.node (remFrontier f key) a → (derefTree fuel f key).node a = f.node a) ∧
+    (∀ a, (f.root key).isSome → ¬ Reach f.node (remFrontier f key) a →
+      (derefTree fuel f key).node a = none) :=
+  ⟨derefTree_fuel_irrelevant fuel fuel' d f key hd hle hle',
+   fun a hr => derefTree_keeps_reachable fuel d f key a hd hle hr,
+   fun a hr hn => derefTree_frees_unreachable fuel f key a hr hn⟩
+
+/-- non-vacuity (and necessity of the hypothesis): `exForest` (Pdb/Proofs/C11Fuel.lean) has
+    height 2; fuel 1 frees node 102 although root 2 still reaches it, fuel 2 and 7 keep it. -/
+example :
+    exForest.HeightLe 2 ∧ ¬ exForest.HeightLe 1 ∧ (derefTree 1 exForest 1).node 102 = none ∧
+    (derefTree 2 exForest 1).node 102 = some [] ∧ (derefTree 7 exForest 1).node 102 = some [] := by
+  decide
+
 end Pdb
 
 #print axioms Pdb.C11_F4_counterexample
@@ -180,3 +407,14 @@ end Pdb
 #print axioms Pdb.C11_order_patched
 #print axioms Pdb.C11_locked_stable
 #print axioms Pdb.C11_released_completes
+#print axioms Pdb.C11_order_current
+#print axioms Pdb.C11_forest_current
+#print axioms Pdb.C11_forest_published
+#print axioms Pdb.C11_locked_stable_current
+#print axioms Pdb.C11_F13_window_only
+#print axioms Pdb.C11_current_livelock
+#print axioms Pdb.C11_forest_patched
+#print axioms Pdb.C11_delay_meaning
+#print axioms Pdb.C11_forest_literal_false
+#print axioms Pdb.C11_released_completes_bounded
+#print axioms Pdb.C11_fuel_adequate
